@@ -1,3 +1,4 @@
+pub mod conc;
 pub mod flw;
 pub mod flwgen;
 pub mod spec;
@@ -11,7 +12,9 @@ pub fn generate(prop: &str, tier: &str, seed: u64) -> Vec<Vec<String>> {
         "C02" => spec::gen_c02(tier, seed),
         "C05" => spec::gen_c05(tier, seed),
         "C17" => spec::gen_c17(tier, seed),
+        "C12" => spec::gen_c12(tier, seed),
         "C01" => flwgen::gen_c01(tier, seed),
+        "C03" => conc::gen_c03(tier, seed),
         "C06" => flwgen::gen_c06(tier, seed),
         "C07" => flwgen::gen_c07(tier, seed),
         "C08" => flwgen::gen_c08(tier, seed),
@@ -31,14 +34,17 @@ pub fn init_process(ctx: &mut Ctx) {
     let _ = ctx;
 }
 
-/// Executes one case against the implementation; one answer per protocol line.
-pub fn execute(ctx: &mut Ctx, lines: &[String]) -> Vec<String> {
+/// Executes one case against the implementation. Returns the cases as executed (normally the
+/// input itself; executors that observe a real schedule rewrite it into the observed history)
+/// with one answer per protocol line.
+pub fn execute(ctx: &mut Ctx, lines: &[String]) -> Vec<(Vec<String>, Vec<String>)> {
     let hdr = tokens(&lines[0]);
     assert!(hdr.len() >= 3 && hdr[0] == "CASE", "bad header {:?}", lines[0]);
     ctx.report.evaluations += 1;
     match hdr[1] {
-        "spec" => spec::execute(ctx, lines),
-        "flw" => flw::execute(ctx, lines),
+        "spec" => vec![(lines.to_vec(), spec::execute(ctx, lines))],
+        "flw" => vec![(lines.to_vec(), flw::execute(ctx, lines))],
+        "conc" => conc::execute(ctx, lines),
         m => panic!("unknown model {m}"),
     }
 }
